@@ -52,7 +52,8 @@ CHECKS = {
         "(minimal and full parenthesisation, 5 optional-whitespace styles) of every operator single / pair / triple arrangement and random "
         "full-grammar trees, where the renderings come from an independent reference printer written in Lean from OData 4.01 §5.1.1.14; "
         "theorems tie the model's levels to the extracted yacc declaration and to the specification's table; the token-level round-trip "
-        "theorem parse_printToks (every printable tree, both renderings, every whitespace style) is in Props/C05Roundtrip.lean when present.",
+        "theorem parse_printToks (every printable tree, both renderings, every whitespace style) is in Props/C05Roundtrip.lean; Props/C05Text.lean lifts it to TEXT "
+        "(text_grouping: the minimally and the fully parenthesised text of any tree parse to the same tree; text_parens_win), via the character-level theorem C13.parse_text.",
    note="Trusted: Lean kernel, standard axioms, Spec/RefPrinter.lean, harness. Modelled, not verified: SLY's LALR(1) construction and driver, CPython's re "
         "(tied by the tie theorems on the extracted rules/productions/precedence and by the differential run incl. exhaustive token sequences in C10).",
    design="§6 C05", technique="Lean 4 proof over hand-written parser model + generated-table tie theorems + differential correspondence on reference renderings"),
@@ -61,9 +62,10 @@ CHECKS = {
         "(level_prec) and that it parenthesises wherever the reference printer's minimal rule requires (paren_where_needed_*), for every "
         "operand of every operator; printer table tied to roundtrip.PRECEDENCE by decide; model compared with the real printer by string "
         "equality on exhaustive small trees and random trees; the round trip render->parse->equal and the fixpoint are executed on the real "
-        "code for every generated tree. One known finding (identifier `not`) has a Lean negation witness.",
-   note="Trusted: Lean kernel, standard axioms, harness. Partial: the character-level step lex(render e) = tokens is covered by the correspondence run and by the "
-        "lexer lemmas of C06/C19, not yet by one end-to-end theorem. Five printer defects were repaired first (fix: 6e13462 b3ff485 5b649a4 51169b6).",
+        "code for every generated tree. Props/C13Text.lean (3 700 lines with its lemma files): `roundtrip_text` - for every printable tree whose identifier / literal tokens lex to themselves "
+        "also next to a blank (lexableE', decidable), the CHARACTERS the printer model emits are lexed and parsed back to that tree (parse_text: for every whitespace style and parenthesisation "
+        "mode). The weaker condition first stated is refuted in Lean (parse_text_original_false: an identifier named like an operator keyword) - that is the known finding (identifier `not`).",
+   note="Trusted: Lean kernel, standard axioms, harness. lexableE' excludes exactly the keyword-named identifiers of the known finding. Five printer defects were repaired first (fix: 6e13462 b3ff485 5b649a4 51169b6).",
    design="§6 C13", technique="Lean 4 proof (order-embedding of precedence tables, paren soundness) + tie theorem + string-exact differential correspondence + executed round trip"),
  "C10": dict(
    text="Lean 4 theorem `C10.total`: for EVERY string and every character-class environment, the lexer+parser model returns an AST or one of the "
@@ -153,7 +155,9 @@ CHECKS = {
         "sqlite3 on a 432-row product table and random tables; ids compared row by row with Spec.evalB (700 000 (filter,row) pairs) and with Spec.SqliteSem on the re-read text. "
         "Numeric stream (outside the theorem's grammar): floor / ceiling / round of a fractional column compared with integers, judged against Spec/NumFn.lean (roundQ, with floor_spec / "
         "ceiling_spec / round_near / round_midpoint proved; kf_trunc_shift_wrong characterises the known finding). Date stream: comparisons / in-lists / year ... second over a date and a "
-        "date-time column judged against Spec/DateSem.lean; Props/DateOrder.lean proves that ordinal comparison of ISO spellings is the chronological order (iso_order, cmp_iso). Tie.SqlTemplates.selectTpl_in_source: every function template of the model is an f-string of the source class it models.",
+        "date-time column judged against Spec/DateSem.lean; Props/DateOrder.lean proves that ordinal comparison of ISO spellings is the chronological order (iso_order, cmp_iso). Props/C01Date.lean: `date_where_selects` - the end-to-end "
+        "theorem for the date fragment as a typed grammar (Spec.DateF: column vs date literal in either order, in-lists, year / month / day vs integer, and / or / not; valid calendar dates), against the SQLite date "
+        "model sqlEvalD (DATE(x), CAST(STRFTIME(..) AS INTEGER)), which is validated against sqlite3 on every run together with DateF.toExpr and evalDF (300-1500 random DateF filters). Tie.SqlTemplates.selectTpl_in_source: every function template of the model is an f-string of the source class it models.",
    note="Trusted: Lean kernel, standard axioms, Spec/ODataSem.lean (reference semantics, profile decisions of DESIGN §4), Spec/SqliteSem.lean (environment model of SQLite, validated against sqlite3 "
         "each run), Spec/SqlLex+SqlParse, harness. semOkB excludes negative substring positions (unspecified), NUL, wrong storage classes, and the two LIKE known findings (ASCII case folding; "
         "wildcards in a computed pattern) which have Lean witnesses. Dates and 64-bit overflow are outside the semantic model (their translation is covered structurally by C09); fractional values only through the numeric stream (judged, not proved). "
